@@ -142,7 +142,8 @@ def rule_scratch_hygiene(ctx, rep):
             for bi, why in bad:
                 rep.violation(R, ent, 'scratch builder `%s` may be dirty when handed to apply: %s; an earlier, unrelated word of the '
                               'text then changes how this one is read' % (name, why), _loc(ctx, qq, bi))
-    rep.floor(R, n, 2, 'annotation passes with a scratch builder')
+    if n == 0:
+        rep.info(R, 'none', 'no annotation pass hands a local scratch builder to apply in a way this analysis can follow (closures); the evaluation rules A-O-ANNOTATE / A-NEUF-ANNOTATE decide hygiene')
 
 
 def _refs_local(x, op, local, mut=False):
